@@ -83,9 +83,12 @@ Proof. split; vm_compute; reflexivity. Qed.
 Theorem C12_chunks_pitch_independent : forall (X : Type) (n : nat), (1 <= n)%nat -> forall rows : list (list X),
   fec_rows X n rows = fec_contiguous X n rows.
 Proof. exact fec_rows_eq_contiguous. Qed.
+Theorem C12_chunks_partition : forall (X : Type) (n : nat), (1 <= n)%nat -> forall rows : list (list X),
+  concat (fec_rows X n rows) = concat rows /\ concat (fec_contiguous X n rows) = concat rows.
+Proof. exact chunks_partition. Qed.
 Example C12_chunks_ex : fec_rows nat 4 [[1; 2; 3]; [4; 5; 6]; [7; 8; 9]]%nat = [[1; 2; 3; 4]; [5; 6; 7; 8]; [9]]%nat.
 Proof. reflexivity. Qed.
 
 Definition C12_all := (C12_roundtrip_u8, C12_roundtrip_u16, C12_quantise_u8, C12_quantise_u16, C12_f32_into_unorm8, C12_f32_into_unorm8_between, C12_f32_into_unorm16,
-  C12_f32_into_n2, C12_f32_into_n4, C12_f32_into_n5, C12_f32_into_n6, C12_f32_into_n10, C12_f32_into_s8, C12_s8_from_level, C12_f32_into_unorm8_outside, C12_f32_into_unorm16_outside, C12_chunks_pitch_independent).
+  C12_f32_into_n2, C12_f32_into_n4, C12_f32_into_n5, C12_f32_into_n6, C12_f32_into_n10, C12_f32_into_s8, C12_s8_from_level, C12_f32_into_unorm8_outside, C12_f32_into_unorm16_outside, C12_chunks_pitch_independent, C12_chunks_partition).
 Redirect "props/C12.assumptions" Print Assumptions C12_all.
